@@ -60,6 +60,10 @@ func (x *Exec) verifyFunction(fn *ssa.Function, c *FuncContract) (rep FuncReport
 	env := x.newEnv(st, nil, nil)
 	env.fn = fn
 	env.entryAlloc = "alloc0"
+	env.freeCells = map[string]*Cell{}
+	for i, fv := range fn.FreeVars {
+		env.freeCells[fv.Name()] = bind[i].(*Place).Cell
+	}
 	for i, p := range fn.Params {
 		env.vars[p.Name()] = args[i]
 	}
@@ -92,6 +96,7 @@ func (x *Exec) verifyFunction(fn *ssa.Function, c *FuncContract) (rep FuncReport
 		}
 		penv.fn = fn
 		penv.entryAlloc = "alloc0"
+		penv.freeCells = env.freeCells
 		for i, p := range fn.Params {
 			penv.vars[p.Name()] = args[i]
 		}
